@@ -67,6 +67,16 @@ Theorem C10_sync_read_is_previous_or_none : forall c initial evs, gc c ->
 Proof. exact sync_read_is_previous_or_none. Qed.
 Print Assumptions C10_sync_read_is_previous_or_none.
 
+(** … precisely: it is the initial value, a manually written value, or the result of a fetch
+    future that has completed *)
+Theorem C10_value_origin : forall c initial evs, gc c ->
+  let s := run c initial evs in
+  forall v, value s = Some v ->
+  initial = Some v \/ In (ManualSet v) evs \/
+  exists f fu, nth_error (futs s) f = Some fu /\ f_done fu = true /\ f_res fu = v.
+Proof. exact value_origin. Qed.
+Print Assumptions C10_value_origin.
+
 (** every stored value / notify marks the subscribed dependent and raises its channel flag *)
 Theorem C10_dependents_notified_each_transition : forall s,
   d_sub s = true ->
